@@ -9,6 +9,7 @@ import (
 	"os"
 	"path/filepath"
 	"reservoir/logging"
+	"strings"
 	"sync"
 	"testing"
 	"time"
@@ -258,10 +259,13 @@ func TestComponentsFollowLimit(t *testing.T) {
 type Switch struct {
 	Backend string `json:"backend"`
 	Flips   []bool `json:"flips"` // successive values of ignore_cache_control
+	// successive values of the two retry switches, set together with Flips[i]
+	Retry416     []bool `json:"retry_416,omitempty"`
+	RetryInvalid []bool `json:"retry_invalid,omitempty"`
 }
 
 var subSwitch = ev.Register("switches-live",
-	"a running proxy whose ignore_cache_control switch is changed through accepted updates (1-5 successive values); after every change a fresh resource the origin marks no-store is requested twice: it must be fetched twice when directives are obeyed and served from the store the second time when they are ignored; non-trivial = at least two changes; distinct by flip sequence",
+	"a running proxy whose ignore_cache_control, retry_on_range_416 and retry_on_invalid_range switches are changed through accepted updates (1-5 successive settings of all three); after every change: a fresh no-store resource requested twice (fetched twice when directives are obeyed, served from the store the second time when they are ignored); a ranged request to an origin that refuses ranges with 416 (retried without Range when retry_on_range_416 is on - the origin sees two requests -, relayed as 416 after one request when it is off); an out-of-bounds Range on a stored resource of an origin that ignores Range (the full 200 when retry_on_invalid_range is on, 416 when it is off); non-trivial = at least two changes; distinct by setting sequence",
 	func(c Switch, o *ev.Obs) *ev.Failure {
 		dir, _ := os.MkdirTemp("", "verif-c19s-")
 		defer os.RemoveAll(dir)
@@ -271,17 +275,40 @@ var subSwitch = ev.Register("switches-live",
 		defer os.Chdir(old)
 		org := origin.New(func(w http.ResponseWriter, r *http.Request, _ []byte, e *origin.Entry) {
 			e.Status = 200
-			w.Header().Set("Cache-Control", "no-store")
-			w.Write([]byte("body of " + r.URL.Path))
+			switch {
+			case strings.HasPrefix(r.URL.Path, "/x"): // refuses ranged requests
+				if r.Header.Get("Range") != "" {
+					e.Status = 416
+					w.Header().Set("Content-Range", "bytes */10")
+					w.WriteHeader(416)
+					return
+				}
+				w.Header().Set("Cache-Control", "max-age=600")
+				w.Write([]byte("0123456789"))
+			case strings.HasPrefix(r.URL.Path, "/y"): // ignores Range
+				w.Header().Set("Cache-Control", "max-age=600")
+				w.Write([]byte("0123456789"))
+			default:
+				w.Header().Set("Cache-Control", "no-store")
+				w.Write([]byte("body of " + r.URL.Path))
+			}
 		})
 		defer org.Close()
 		env := px.New(px.Opts{Backend: c.Backend})
 		defer env.Close()
 		o.NonTrivial = len(c.Flips) >= 2
 		for i, v := range c.Flips {
-			if _, err := config.UpdatePartialFromConfig(env.Cfg, map[string]any{"proxy": map[string]any{"cache_policy": map[string]any{"ignore_cache_control": v}}}); err != nil {
+			r416, rinv := true, false
+			if i < len(c.Retry416) {
+				r416 = c.Retry416[i]
+			}
+			if i < len(c.RetryInvalid) {
+				rinv = c.RetryInvalid[i]
+			}
+			if _, err := config.UpdatePartialFromConfig(env.Cfg, map[string]any{"proxy": map[string]any{"retry_on_range_416": r416, "retry_on_invalid_range": rinv, "cache_policy": map[string]any{"ignore_cache_control": v}}}); err != nil {
 				return ev.Failf("switch.update-rejected", "%v", err)
 			}
+			state := fmt.Sprintf("settings so far ignore_cache_control=%v retry_on_range_416=%v retry_on_invalid_range=%v, now (%v, %v, %v)", c.Flips[:i+1], c.Retry416, c.RetryInvalid, v, r416, rinv)
 			path := fmt.Sprintf("/s%d", i)
 			for k := 0; k < 2; k++ {
 				if _, err := env.Plain(px.Req{Method: "GET", Host: org.Addr(), Target: path, ReqID: fmt.Sprintf("s%d-%d", i, k)}); err != nil {
@@ -295,13 +322,46 @@ var subSwitch = ev.Register("switches-live",
 			if !v && second == 0 {
 				return ev.Failf("switch.not-followed:ignore-off", "flips %v: after ignore_cache_control was set to false a no-store resource was served from the store", c.Flips[:i+1])
 			}
+			// ---- retry_on_range_416
+			xid := fmt.Sprintf("x%d", i)
+			rx, err := env.Plain(px.Req{Method: "GET", Host: org.Addr(), Target: fmt.Sprintf("/x%d", i), ReqID: xid, Headers: []px.H{{K: "Range", V: "bytes=2-5"}}})
+			if err != nil {
+				return ev.Failf("switch.no-response", "%v", err)
+			}
+			seen := org.ByReqID(xid)
+			if r416 && len(seen) < 2 {
+				return ev.Failf("switch.not-followed:retry-416-on", "%s: the origin refused the ranged request with 416 and was not asked again without Range (client got %d)", state, rx.Status)
+			}
+			if !r416 && (len(seen) != 1 || rx.Status != 416) {
+				return ev.Failf("switch.not-followed:retry-416-off", "%s: retry_on_range_416 is off, yet the origin was asked %d times and the client got %d instead of the origin's 416", state, len(seen), rx.Status)
+			}
+			// ---- retry_on_invalid_range
+			ypath := fmt.Sprintf("/y%d", i)
+			if _, err := env.Plain(px.Req{Method: "GET", Host: org.Addr(), Target: ypath, ReqID: "yprime"}); err != nil {
+				return ev.Failf("switch.no-response", "%v", err)
+			}
+			ry, err := env.Plain(px.Req{Method: "GET", Host: org.Addr(), Target: ypath, ReqID: fmt.Sprintf("y%d", i), Headers: []px.H{{K: "Range", V: "bytes=50-60"}}})
+			if err != nil {
+				return ev.Failf("switch.no-response", "%v", err)
+			}
+			if rinv && ry.Status != 200 {
+				return ev.Failf("switch.not-followed:retry-invalid-on", "%s: an out-of-bounds Range on a stored 10-byte resource got %d, the full 200 was expected", state, ry.Status)
+			}
+			if !rinv && ry.Status != 416 {
+				return ev.Failf("switch.not-followed:retry-invalid-off", "%s: an out-of-bounds Range on a stored 10-byte resource got %d, 416 was expected", state, ry.Status)
+			}
 		}
 		return nil
 	})
 
 func TestSwitchesLive(t *testing.T) {
 	subSwitch.CheckSalt(t, 3, ev.N(40, 2000), func(t *rapid.T) Switch {
-		return Switch{Backend: rapid.SampledFrom([]string{"memory", "file"}).Draw(t, "backend"), Flips: rapid.SliceOfN(rapid.Bool(), 1, 5).Draw(t, "flips")}
+		c := Switch{Backend: rapid.SampledFrom([]string{"memory", "file"}).Draw(t, "backend"), Flips: rapid.SliceOfN(rapid.Bool(), 1, 5).Draw(t, "flips")}
+		for range c.Flips {
+			c.Retry416 = append(c.Retry416, rapid.Bool().Draw(t, "retry416"))
+			c.RetryInvalid = append(c.RetryInvalid, rapid.Bool().Draw(t, "retry-invalid"))
+		}
+		return c
 	})
 }
 
